@@ -339,17 +339,25 @@ Section Convert.
     match fuel with
     | O => Err EFuel
     | S f =>
-        (* `cache.get(cell, None)`; `if p_id is not None: return p_id` — a
-           cached None (empty cell) is NOT a hit: the cell is converted again
-           and the counter advances again *)
+        (* `cache.get(cell, None)`; `if p_id is not None: return p_id` *)
         match dget c (cref_cache st) with
         | Some (Some p) => Ok (st, Some p)
         | _ =>
             match dget c cells with
             | None => Err EKey
             | Some g =>
-                do (st1, p) <- pot_convert f st g;
-                Ok (mkSt (next_key st1) (surf_cache st1) (dset c p (cref_cache st1)) (vols st1), p)
+                do (st1, r) <- pot_convert f st g;
+                (* an empty referenced cell: a stand-in, patently empty virtual
+                   volume (pluses = minuses = {union_ids[0]}) is allocated,
+                   cached and returned; convert_cellref never returns None *)
+                let '(st2, p) :=
+                  match r with
+                  | Some p => (st1, p)
+                  | None => let '(st1', p) := bump st1 in
+                            (put_vol st1' p (new_vol [u0] [u0] None), p)
+                  end in
+                Ok (mkSt (next_key st2) (surf_cache st2) (dset c (Some p) (cref_cache st2)) (vols st2),
+                    Some p)
             end
         end
     end
@@ -510,7 +518,15 @@ Definition convert_from (order : list Z -> list Z) (st : cstate) (inp : input)
            | None => Ok (vols st1)
            | Some ren => renumber_all ren (vols st1)
            end;
-  do d2 <- remove_empty_volumes u0 u1 d1;
+  (* union_ids = tuple(renumber[surf] for surf in union_ids) after de-duplication *)
+  do (ru0, ru1) <- match i_renumber inp with
+                   | None => Ok (u0, u1)
+                   | Some ren => match dget u0 ren, dget u1 ren with
+                                 | Some a, Some b => Ok (a, b)
+                                 | _, _ => Err EKey
+                                 end
+                   end;
+  do d2 <- remove_empty_volumes ru0 ru1 d1;
   let d3 := remove_unused_volumes order d2 in
   let lines := map (fun kv => volume_line order (fst kv) (snd kv))
                    (filter (fun kv => negb (zmem (fst kv) (i_skipped inp))) d3) in
